@@ -1745,6 +1745,22 @@ impl<'a, C: Crypto> TransportRunner<'a, C> {
                     packet
                 );
             }
+            Err(e)
+                if matches!(e.code(), ErrorCode::NoSession)
+                    && !packet.header.plain.is_encrypted() =>
+            {
+                // An unsecured message which matches no unsecured session and may not
+                // start one (i.e. it is not `PBKDFParamRequest` / `CASESigma1`) is dropped.
+                //
+                // It must NOT be answered: the answer is itself an unsecured message that
+                // matches no session at the peer, so answering would have the two nodes
+                // bounce `SessionNotFound` status reports (and the standalone ACKs those
+                // provoke) off each other forever.
+                mrp_log!(
+                    "\n>>RCV {}\n      => Unsecured message for no session, dropping",
+                    packet
+                );
+            }
             Err(e) if matches!(e.code(), ErrorCode::NoSession) => {
                 // Per Matter Core spec, when a session-bearing
                 // message arrives for which we have no matching secure session
